@@ -54,7 +54,7 @@ func (c14Harness) Gen(r *verifsim.SplitMix, tier string, idx int) any {
 		sp.Limit = 2 + r.Intn(3)
 		sp.N = 2 + r.Intn(3) // newcomers tried after the reconnect
 	case "msgsize":
-		sp.Limit = []int{256, 1024, 4096}[r.Intn(3)]
+		sp.Limit = []int{256, 1024, 4096, 0}[r.Intn(4)] // 0: no limit
 	case "msgrate":
 		sp.Rate = 1 + r.Intn(5)
 		sp.Limit = 2 + r.Intn(4) // burst
@@ -448,7 +448,11 @@ func (c14Harness) Run(spec any) (res verifsim.RunResult) {
 					rc.SetWriteDeadline(time.Now().Add(5 * time.Second))
 					_ = rc.WriteMessage(websocket.TextMessage, b)
 				}
-				if sp.Kind == "msgsize" {
+				if sp.Kind == "msgsize" && sp.Limit == 0 {
+					for i, sz := range []int{1000, 70000, 200000} {
+						send(fmt.Sprintf("m%d", i), sz)
+					}
+				} else if sp.Kind == "msgsize" {
 					for i, sz := range []int{sp.Limit / 2, sp.Limit - 1, sp.Limit, sp.Limit + 1, 2 * sp.Limit, sp.Limit / 2} {
 						send(fmt.Sprintf("m%d", i), sz)
 					}
@@ -466,7 +470,14 @@ func (c14Harness) Run(spec any) (res verifsim.RunResult) {
 					}
 				}
 				res.Counters["test_messages_forwarded"] += int64(len(got))
-				if sp.Kind == "msgsize" {
+				if sp.Kind == "msgsize" && sp.Limit == 0 {
+					for _, m := range sents {
+						if !got[m.id] {
+							addV("unlimited-but-refused", "max-message-bytes=0", fmt.Sprintf("--max-message-bytes 0 (no limit) but a %d-byte message was not forwarded", m.size))
+							break
+						}
+					}
+				} else if sp.Kind == "msgsize" {
 					for _, m := range sents {
 						if m.size > sp.Limit && got[m.id] {
 							addV("limit-exceeded", "max-message-bytes", fmt.Sprintf("--max-message-bytes %d but a %d-byte message was forwarded", sp.Limit, m.size))
